@@ -34,7 +34,8 @@ LEVEL_TEXT = (
     "check.rs, indices chosen by the program text (tuple accessors) must be compared with the length on the in-bounds edge (F10). "
     "Found with it: the unterminated-comment hang, the EOF unwrap, the `0..0` underflow, the struct-literal panic and a second, "
     "previously unknown hang (match cut off after a braced clause). Not decided: panics of check.rs / compile.rs beyond F10 on inputs "
-    "the parser accepts (C05), recursion depth on pathologically nested input, well-formedness (start <= end) of locations.")
+    "the parser accepts (C05), recursion depth on pathologically nested input, well-formedness (start <= end) of locations."
+    " F12: every node the literal parser can build in literal mode has an arm in into_literal; F13: self-containing type definitions are rejected before anything recurses over them (C17-T16).")
 LEVEL_NOTE = ("Trusted: rustc MIR; Peekable::next / peek return None once the underlying iterator is exhausted. The idiom for "
               "prettify_meta's unguarded `lines[l]` is accepted by name (l < end line of a token of the same text).")
 EXPLANATION = ("Scope of the interpreter: every function of scan.rs and parse.rs (closures included). Loops whose exit is the exhaustion "
